@@ -689,6 +689,13 @@ func (ex *Exec) valueEq(a, b Value) *Term {
 		panic(unsupported("comparison of interior pointer with pointer"))
 	case VIface:
 		y := b.(VIface)
+		// comparison with the nil interface: decided by the dynamic type alone
+		if y.Tag.IsConst() && y.Tag.Val == 0 {
+			return Eq(x.Tag, C64(0))
+		}
+		if x.Tag.IsConst() && x.Tag.Val == 0 {
+			return Eq(y.Tag, C64(0))
+		}
 		return And(Eq(x.Tag, y.Tag), Eq(x.Pay, y.Pay))
 	case VSlice: // only against nil
 		y := b.(VSlice)
